@@ -45,6 +45,49 @@ def _blocks(node):
             yield 'handler', h.body
 
 
+def linear(stmts):
+    """The statement sequence with else-continuations spliced in:
+    ``if c: <exit> else: rest`` is the same straight-line code as
+    ``if c: <exit>`` followed by ``rest`` (and symmetrically when the else arm
+    exits).  Rules that walk "the statements of the function body" use this so
+    that the two spellings are indistinguishable."""
+    out = []
+    for st in stmts:
+        out.append(st)
+        if isinstance(st, ast.If) and st.orelse:
+            eb, eo = always_exits(st.body), always_exits(st.orelse)
+            if eb and eo:
+                # both arms leave: the short rejection arm is the guard, the
+                # other one is the rest of the function
+                eb, eo = (True, False) if len(st.body) <= len(st.orelse) \
+                    else (False, True)
+            if eb and not eo:
+                out.extend(linear(st.orelse))
+            elif eo and not eb:
+                out.extend(linear(st.body))
+    return out
+
+
+def own_walk(st):
+    """ast.walk over a statement of a ``linear`` sequence, without the arm
+    that ``linear`` spliced in as the continuation."""
+    if isinstance(st, ast.If) and st.orelse:
+        eb, eo = always_exits(st.body), always_exits(st.orelse)
+        if eb and eo:
+            eb, eo = (True, False) if len(st.body) <= len(st.orelse) \
+                else (False, True)
+        if eb and not eo:
+            parts = [st.test] + st.body
+        elif eo and not eb:
+            parts = [st.test] + st.orelse
+        else:
+            parts = [st]
+        for p in parts:
+            yield from ast.walk(p)
+        return
+    yield from ast.walk(st)
+
+
 def guards_of(fn_node, target):
     """List of (test expr node, polarity) dominating ``target`` (a statement
     or an expression inside a statement) within the function."""
@@ -89,11 +132,88 @@ def guards_of(fn_node, target):
                     break
         node = par
     guards.reverse()
-    return guards
+    # ``not t`` holding is ``t`` failing: rules never see the negation
+    out = []
+    for t, pol in guards:
+        while isinstance(t, ast.UnaryOp) and isinstance(t.op, ast.Not):
+            t, pol = t.operand, not pol
+        out.append((t, pol))
+    return out
+
+
+def guard_atoms(guards):
+    """Split conjunctions that hold / disjunctions that fail into their
+    parts (each part then holds / fails on its own)."""
+    out = []
+    todo = list(guards)
+    while todo:
+        t, pol = todo.pop(0)
+        while isinstance(t, ast.UnaryOp) and isinstance(t.op, ast.Not):
+            t, pol = t.operand, not pol
+        if isinstance(t, ast.BoolOp) and (
+                (isinstance(t.op, ast.And) and pol) or
+                (isinstance(t.op, ast.Or) and not pol)):
+            todo = [(v, pol) for v in t.values] + todo
+            continue
+        out.append((t, pol))
+    return out
+
+
+_FLIP = {ast.Lt: ast.Gt, ast.Gt: ast.Lt, ast.LtE: ast.GtE, ast.GtE: ast.LtE,
+         ast.Eq: ast.Eq, ast.NotEq: ast.NotEq}
+_NEG = {ast.Lt: ast.GtE, ast.Gt: ast.LtE, ast.LtE: ast.Gt, ast.GtE: ast.Lt,
+        ast.Eq: ast.NotEq, ast.NotEq: ast.Eq, ast.Is: ast.IsNot,
+        ast.IsNot: ast.Is, ast.In: ast.NotIn, ast.NotIn: ast.In}
+
+
+def cmp_facts(guards):
+    """Canonical comparison facts implied by the guards: a list of
+    (left-dump, op-class, right-dump, left-node, right-node) that HOLD, each
+    single comparison given in both orientations (a < b and b > a), with
+    failing tests negated.  Chained comparisons are split."""
+    facts = []
+    for t, pol in guard_atoms(guards):
+        if not isinstance(t, ast.Compare):
+            continue
+        if len(t.ops) > 1 and not pol:
+            continue            # negation of a chain is a disjunction
+        operands = [t.left] + list(t.comparators)
+        for i, op in enumerate(t.ops):
+            l, r = operands[i], operands[i + 1]
+            oc = type(op)
+            if not pol:
+                oc = _NEG.get(oc)
+            if oc is None:
+                continue
+            facts.append((ast.dump(l), oc, ast.dump(r), l, r))
+            if oc in _FLIP:
+                facts.append((ast.dump(r), _FLIP[oc], ast.dump(l), r, l))
+    return facts
+
+
+def holds(guards, left, op, right=None):
+    """Does a guard imply ``left <op> right``?  left / right are source
+    strings or AST nodes; right=None matches any right operand."""
+    def dump(x):
+        if x is None:
+            return None
+        if isinstance(x, str):
+            x = ast.parse(x, mode='eval').body
+        return ast.dump(x)
+    dl, dr = dump(left), dump(right)
+    for l, oc, r, _, _ in cmp_facts(guards):
+        if l == dl and oc is op and (dr is None or r == dr):
+            return True
+    return False
 
 
 def src(mod, node):
-    s = ast.get_source_segment(mod.src, node) or ''
+    """Canonical text of a node: ``ast.unparse`` (independent of the source
+    formatting, quote style and redundant parentheses)."""
+    try:
+        s = ast.unparse(node)
+    except Exception:
+        s = ast.get_source_segment(mod.src, node) or ''
     return re.sub(r'\s+', ' ', s).strip()
 
 
